@@ -49,6 +49,7 @@ def install(stats=None, strict_none=False):
         self._verif_shadow = {}      # event -> [(langs, wrapped handler, original)]
         self._verif_stack = []
         self._verif_known = None
+        self._verif_wrappers = {}
         o_init(self, *a, **k)
 
     def register(self, event, handler, langs=ANY):
@@ -68,6 +69,13 @@ def install(stats=None, strict_none=False):
                 rec["out"] = data.out_data
             return ret
         logged._verif_orig = handler
+        # one wrapper per original callable (equal callables, e.g. two bound-method objects of one method, share it):
+        # registering the same callable twice must reach the real register() as the same callable twice, otherwise
+        # the monitor would hide what the manager does with repeated registrations
+        try:
+            logged = self._verif_wrappers.setdefault(handler, logged)
+        except TypeError:
+            pass
         if event in self._verif_known:
             self._verif_shadow.setdefault(event, []).append((_norm_langs(langs), logged))
             stats.registered += 1
